@@ -168,7 +168,7 @@ def main():
         'version': 1,
         'setup_cmd': 'cd lean/FFVerif && lake build',
         'hooks': {'guard': 'FFPACK_VERIF', 'enable': 'no hook in ffpack is needed: all observation points are public return values or numpy.random wrapped from outside; checks import /repo/src in-process',
-                  'baseline_off_cmd': BASE, 'source_commits': FIXES, 'add_only': True},
+                  'baseline_off_cmd': BASE, 'source_commits': [], 'add_only': True},
         'engines': [
             {'name': 'list', 'path': 'harness/cyc.py + lean/FFVerif/FFVerif/Model/{Cycle,Level,Signal,Matrix}.lean', 'serves_properties': ['C01', 'C02', 'C03', 'C04', 'C05', 'C06', 'C07', 'C19'], 'kind_free_text': 'hand-written Lean models of the list algorithms, exact correspondence on the dyadic grid'},
             {'name': 'formula', 'path': 'harness/translate.py + harness/gen.py + lean/FFVerif/FFVerif/Gen/*.lean', 'serves_properties': ['C08', 'C09', 'C12', 'C18', 'C20'], 'kind_free_text': 'Python-AST to Lean translator (generic scalar), translation validation at Float, theorems at the reals'},
@@ -177,7 +177,7 @@ def main():
             {'name': 'real-analysis', 'path': 'lean/FFVerif/FFVerif/Proofs/{C10,C11,C17}.lean', 'serves_properties': ['C10', 'C11', 'C17'], 'kind_free_text': 'Mathlib theorems about the exact methods, tolerance tie to the implementation'},
         ],
         'checks': checks,
-        'notes': 'Technique family: machine-checked proof in Lean 4 (see DESIGN.md). VERIF_SEED seeds the single PRNG; VERIF_REPO (default /repo) is for self-tests only. hooks.source_commits lists the unguarded fix: commits made in /repo (no guarded hook exists).',
+        'notes': 'Technique family: machine-checked proof in Lean 4 (see DESIGN.md). VERIF_SEED seeds the single PRNG; VERIF_REPO (default /repo) is for self-tests only. No guarded hook commit exists (hooks.source_commits is empty). Unguarded fix: commits made in /repo, each recorded in known_findings.json: ' + ' '.join(FIXES) + '.',
         'not_applicable': na,
     }
     json.dump(m, open(os.path.join(VERIF, 'MANIFEST.json'), 'w'), indent=1)
